@@ -443,6 +443,11 @@ func (w *verifWorld) newContainer(maxMilli int64) *verifContainer {
 	id := "c" + string(rune('0'+k))
 	pod := &verifPod{name: "p" + id, namespace: verifNamespaces[verifChoice("namespace", verifParam("namespaces", len(verifNamespaces)))],
 		qos: verifQoS[verifChoice("qos", verifParam("qosClasses", len(verifQoS)))], annotations: map[string]string{}}
+	if verifParam("hideHT", 0) != 0 && verifChoice("hideHT", 2) == 1 {
+		// the container asks to run on one thread per core
+		pod.annotations[hideHyperthreadsKey] = "true"
+		verifCover("hide-hyperthreads-annotated")
+	}
 	m := verifNondetInt64("mcpu")
 	verifAssume(verifAnd(m >= 0, m <= maxMilli))
 	if pod.qos == v1.PodQOSBestEffort {
